@@ -353,7 +353,7 @@ def proof_step(pid, cfg, log):
     return res
 
 
-TV_STRUCTS = {'GoEntityPool': 'pool', 'GoLocks': 'lock', 'GoIntPool': 'intpool', 'GoBitSet': 'bitset', 'GoPaged': 'paged', 'GoResources': 'res'}
+TV_STRUCTS = {'GoEntityPool': 'pool', 'GoLocks': 'lock', 'GoLocks64': 'lock64', 'GoIntPool': 'intpool', 'GoBitSet': 'bitset', 'GoPaged': 'paged', 'GoResources': 'res'}
 
 
 def tv_structs(pid):
@@ -376,8 +376,16 @@ def translator_validation(pid, tier, seed, structs):
     res = {'structures': {}, 'mismatches': 0, 'outside_model': 0, 'calls': 0, 'histories': 0,
            'call_distribution_all_structures': (p.stderr or '').strip()[-400:], 'error': ''}
     lines = []
+    trace64 = None
+    if any(k.endswith('64') for k in structs):
+        # the tiny build (64 mask bits): the same hooks, compiled with the build tag
+        H64 = os.path.join(ROOT, "tv_harness", "tv_harness_tiny")
+        trace64 = os.path.join(WORK, f"tv_{pid}_tiny.trace")
+        p64 = sh(f"{H64} -only lock -seed {seed % 100000} -n {n} > {trace64}", check=False, timeout=600)
+        if not os.path.exists(H64) or p64.returncode != 0:
+            return {'error': 'tv_harness_tiny failed or not built: ' + (p64.stderr or '')[-300:], 'mismatches': 0}
     for k in structs:
-        q = sh(f"{os.path.join(ROOT, 'ocaml', 'tvd_' + k)} < {trace}", check=False, timeout=600)
+        q = sh(f"{os.path.join(ROOT, 'ocaml', 'tvd_' + k)} < {trace64 if k.endswith('64') else trace}", check=False, timeout=600)
         m = re.search(r'SUMMARY structure=\w+ histories=(\d+) calls=(\d+) mismatches=(\d+) outside=(\d+)', q.stdout)
         if not m:
             return {'error': f'tvd_{k} failed: ' + (q.stdout + q.stderr)[-500:], 'mismatches': 0}
